@@ -573,6 +573,11 @@ def decide(pid, pcfg, cfg, tier, seed, workdir, evidence):
             log(f"failing input: {found['case'][:200]} expected: {found['expected'][:200]} actual: {found['actual'][:200]}")
             log(f"VIOLATION property={pid} replay={path}")
             return 1
+    new_pub = [x for x in externalised if x.get("new_item") and x.get("public")]
+    if pid == "C03" and new_pub:
+        # C03 speaks about EVERY accessor / conversion on the parsed values: a new public function without a
+        # contract is outside what was verified, and nothing exercises it - no verdict for it
+        raise Undecided("new public function(s) without a contract, panic-freedom not decided for: " + ", ".join(x["item"] for x in new_pub))
     if deps:
         raise Undecided("a functional (determinism) clause this property's proof depends on failed: " + "; ".join(deps[0]["where"]))
     if not vac["ok"]:
